@@ -358,3 +358,14 @@ def topk_oracles(a):
     p = np.argpartition(-s, k)
     sub = -s[p[:k]]
     return {'argpartition': p.tolist(), 'argsort_input': sub.tolist(), 'argsort': np.argsort(sub).tolist()}
+
+
+def normalizer_apply(a):
+    """Normalizer(A, reg) applied directly / transposed to a vector and to a matrix (the four branches of _matvec / _rmatvec)."""
+    from sknetwork.linalg.operators import Normalizer as _N
+    m = sparse.csr_matrix(np.array(a['A'], dtype=float))
+    op = _N(m, a['reg'])
+    return {'matvec_1d': np.asarray(op.dot(np.array(a['x'], dtype=float))).tolist(),
+            'rmatvec_1d': np.asarray(op.T.dot(np.array(a['y'], dtype=float))).tolist(),
+            'matvec_2d': np.asarray(op.dot(np.array(a['X'], dtype=float))).tolist(),
+            'rmatvec_2d': np.asarray(op.T.dot(np.array(a['Y'], dtype=float))).tolist()}
